@@ -462,3 +462,76 @@ def section(ctx):
     hooks = (ser is not None and 'default=self.default_serialization_hook' in ast.unparse(ser)
              and de is not None and 'object_hook=self.object_deserialization_hook' in ast.unparse(de))
     ctx.emit(f'def serializeUsesHints : Bool := {_b(hooks)}')
+
+    # ---------------------------------------------------------------- snapshot producer: the record of the file being read
+    # (C14 `inflight_*`): inside the read loop of `_stream_files` the record's `stream_end` is advanced by the length of the block
+    # that was read BEFORE that block is handed to the chunker, so that `_chunk_done` — which runs concurrently, while later blocks
+    # of the same file are still to be read — never sees a record that ends before the bytes the chunk was cut from.
+    sf = ctx.find_func(rtree, 'Repository', 'snapshot', '_stream_files')
+    adv, why = _stream_end_advanced(sf)
+    if not adv:
+        notes['stream_files.stream_end'] = why
+    ctx.emit(f'def streamEndAdvancedInReadLoop : Bool := {_b(adv)}')
+
+
+def _stream_end_advanced(sf):
+    """→ (recognised, note).  Shape looked for (names are free, statement order and data flow are not):
+
+        <rec> = _SnapshotFile(..., stream_start=<pos>, stream_end=<pos>)          # record starts empty at the stream position
+        while <blk> := <f>.read(<n>):     |  for <blk> in iter(lambda: <f>.read(<n>), b''):  |  while True: <blk> = <f>.read(<n>); if not <blk>: break
+            <pos> += len(<blk>)
+            <rec>.stream_end += len(<blk>)     |  <rec>.stream_end = <rec>.stream_end + len(<blk>)  |  <rec>.stream_end = <pos>  (after <pos> was advanced)
+            ...
+            yield <blk>
+    """
+    if sf is None:
+        return False, '_stream_files not found'
+    loops = []
+    for n in ast.walk(sf):
+        if isinstance(n, (ast.While, ast.For)):
+            src = ast.unparse(n.test if isinstance(n, ast.While) else n.iter)
+            body_reads = any(isinstance(c, ast.Call) and isinstance(c.func, ast.Attribute) and c.func.attr == 'read' for st in n.body for c in ast.walk(st))
+            if '.read' in src or (isinstance(n, ast.While) and body_reads):
+                loops.append(n)
+    if len(loops) != 1:
+        return False, f'{len(loops)} read loops in _stream_files'
+    loop = loops[0]
+    blk = None
+    if isinstance(loop, ast.While) and isinstance(loop.test, ast.NamedExpr):
+        blk = loop.test.target.id
+    elif isinstance(loop, ast.For) and isinstance(loop.target, ast.Name):
+        blk = loop.target.id
+    else:
+        for st in loop.body:
+            if isinstance(st, ast.Assign) and len(st.targets) == 1 and isinstance(st.targets[0], ast.Name) and '.read(' in ast.unparse(st.value):
+                blk = st.targets[0].id
+    if blk is None:
+        return False, 'block variable of the read loop not recognised'
+    ln = f'len({blk})'
+    yields = [i for i, st in enumerate(loop.body) if isinstance(st, ast.Expr) and isinstance(st.value, ast.Yield) and st.value.value is not None
+              and ast.unparse(st.value.value) == blk]
+    if len(yields) != 1:
+        return False, 'the read loop does not yield the block exactly once at its top level'
+    advanced_pos = set()     # stream-position expressions already advanced by len(block) in this iteration
+    ok = False
+    for st in loop.body[:yields[0]]:
+        if isinstance(st, ast.AugAssign) and isinstance(st.op, ast.Add) and ast.unparse(st.value) == ln:
+            tgt = ast.unparse(st.target)
+            if isinstance(st.target, ast.Attribute) and st.target.attr == 'stream_end':
+                ok = True
+            else:
+                advanced_pos.add(tgt)
+        elif isinstance(st, ast.Assign) and len(st.targets) == 1 and isinstance(st.targets[0], ast.Attribute) and st.targets[0].attr == 'stream_end':
+            tgt, val = ast.unparse(st.targets[0]), ast.unparse(st.value)
+            if val in (f'{tgt} + {ln}', f'{ln} + {tgt}') or val in advanced_pos:
+                ok = True
+    if not ok:
+        return False, 'stream_end of the file record is not advanced by len(block) inside the read loop before the block is yielded'
+    # the record must start empty at the current stream position
+    starts = [c for c in ast.walk(sf) if isinstance(c, ast.Call) and ast.unparse(c.func).endswith('_SnapshotFile')]
+    if len(starts) != 1:
+        return False, 'record construction not recognised'
+    kw = {k.arg: ast.unparse(k.value) for k in starts[0].keywords}
+    if 'stream_start' not in kw or kw.get('stream_start') != kw.get('stream_end'):
+        return False, 'the record does not start with stream_end == stream_start'
+    return True, ''
